@@ -14,6 +14,7 @@ type PrintOpts struct {
 	TreeSwallow bool  // like Tree "py", only for chains in which an operator swallows (finding ops-right-operand-swallows-rest)
 	TreeLazy   bool   // like Tree "py", only for other chains in which and/or is followed by a tighter operator
 	Mod        bool   // a % b  ->  _mod(a, b)            (floor modulo built from the interpreter's own %)
+	StableSort bool   // sorted(l, key=k, reverse=r) -> _ssorted(l, k, r)  (a stable insertion sort written in the language itself)
 	FloorDiv   bool   // a // b ->  _fdiv(a, b)           (floor division built from the interpreter's integer / and %)
 	AddCopy    bool   // a + b  ->  _cp(a) + b            (left operand copied: no spare capacity, no aliasing)
 	SliceCopy  bool   // a[i:j] ->  _cp(a[i:j])
@@ -32,6 +33,13 @@ const repairPrelude = `def _cp(x):
     return [_e for _e in x] if (not isinstance(x, str)) and str(x).startswith("[") else x
 def _mod(a, b):
     return ((a % b) + b) % b if isinstance(a, int) else a % b
+def _ssorted(l, k, r):
+    out = []
+    for x in l:
+        kx = k(x) if k else x
+        n = len([y for y in out if not ((k(y) if k else y) < kx)]) if r else len([y for y in out if not (kx < (k(y) if k else y))])
+        out = [y for y in out[:n]] + [x] + [y for y in out[n:]]
+    return out
 def _fdiv(a, b):
     q = a / b
     return q - 1 if (a % b != 0) and ((a < 0) != (b < 0)) else q
@@ -313,6 +321,18 @@ func (p *printer) expr(e *E, pos bool) string {
 		if p.o.SortCopy && (e.S == "sorted" || e.S == "reversed") && len(a) > 0 && e.Kw[0] == "" {
 			a[0] = "_cp(" + a[0] + ")"
 		}
+		if p.o.StableSort && e.S == "sorted" && len(a) > 0 && e.Kw[0] == "" {
+			key, rev := "None", "False"
+			for i := 1; i < len(e.A); i++ {
+				switch {
+				case e.Kw[i] == "key" || e.Kw[i] == "" && i == 1:
+					key = p.expr(e.A[i], true)
+				case e.Kw[i] == "reverse" || e.Kw[i] == "" && i == 2:
+					rev = p.expr(e.A[i], true)
+				}
+			}
+			return "_ssorted(" + a[0] + ", " + key + ", " + rev + ")"
+		}
 		return e.S + "(" + strings.Join(a, ", ") + ")"
 	case "m":
 		return p.expr(e.A[0], false) + "." + e.S + "(" + strings.Join(p.args(e.A[1:], e.Kw), ", ") + ")"
@@ -486,7 +506,7 @@ func (p *printer) cp(x string) string {
 // Print renders a program. With any asp-side repair the helper definitions are prepended.
 func Print(prog []*S, o PrintOpts) string {
 	var b strings.Builder
-	if o.Mod || o.AddCopy || o.SliceCopy || o.SortCopy || o.FloorDiv {
+	if o.Mod || o.AddCopy || o.SliceCopy || o.SortCopy || o.FloorDiv || o.StableSort {
 		b.WriteString(repairPrelude)
 	}
 	p := &printer{o: o}
@@ -502,6 +522,8 @@ type features struct {
 	maxChain   int
 	swallow    bool
 	lazyTight  bool
+	keySorts   int
+	maxLit     int // longest list / dict literal
 	fdivs      int
 	negMod     bool // a % with a possibly negative operand is not decided statically; counts `%` occurrences
 	mods       int
@@ -581,11 +603,21 @@ func (f *features) walkE(e *E) {
 		if e.S == "sorted" || e.S == "reversed" {
 			f.sorts++
 		}
+		if e.S == "sorted" && len(e.A) > 1 {
+			f.keySorts++
+		}
 	case "lc", "dc":
 		f.comps++
 	case "l":
 		if len(e.A) > 0 && isConstE(e) {
 			f.constLists++
+		}
+		if len(e.A) > f.maxLit {
+			f.maxLit = len(e.A)
+		}
+	case "d":
+		if len(e.A)/2 > f.maxLit {
+			f.maxLit = len(e.A) / 2
 		}
 	}
 	for _, a := range e.A {
